@@ -62,6 +62,70 @@ type Meta struct {
 	Seconds   float64 `json:"seconds"`
 	Seed      int64   `json:"seed,omitempty"`
 	Par       int     `json:"par,omitempty"`
+	Runs      int     `json:"runs,omitempty"`    // child processes used (a crash starts a new one)
+	Crashes   []Crash `json:"crashes,omitempty"` // children that died or hung
+}
+
+// Crash describes a child process of TestRace that did not end normally: the library
+// panicked (e.g. "sync: WaitGroup is reused before previous Wait has returned"), the
+// runtime gave up ("fatal error: ..."), or the process hung and was killed.
+type Crash struct {
+	Kind    string    `json:"kind"` // "panic", "fatal", "hang", "exit"
+	Message string    `json:"message"`
+	Frame   [2]string `json:"frame"` // innermost library frame of the failing goroutine
+	Seed    int64     `json:"seed"`
+	After   float64   `json:"after_seconds"`
+	Raw     string    `json:"raw"`
+}
+
+var traceLocRe = regexp.MustCompile(`^\t(\S.*):(\d+)(?: \+0x[0-9a-f]+)?\s*$`)
+
+// ParseCrash looks for a panic or fatal error in the output of a test binary.
+func ParseCrash(out string) (Crash, bool) {
+	lines := strings.Split(out, "\n")
+	for i, ln := range lines {
+		var c Crash
+		switch {
+		case strings.HasPrefix(ln, "panic: "):
+			c.Kind, c.Message = "panic", strings.TrimPrefix(ln, "panic: ")
+		case strings.HasPrefix(ln, "fatal error: "):
+			c.Kind, c.Message = "fatal", strings.TrimPrefix(ln, "fatal error: ")
+		default:
+			continue
+		}
+		raw := strings.Join(lines[i:], "\n")
+		if len(raw) > 3000 {
+			raw = raw[:3000]
+		}
+		c.Raw = raw
+		// the first goroutine of the trace is the failing one
+		started := false
+		for j := i + 1; j < len(lines); j++ {
+			l := lines[j]
+			if strings.HasPrefix(l, "goroutine ") {
+				if started {
+					break
+				}
+				started = true
+				continue
+			}
+			if started && strings.HasPrefix(l, leaderPkg) {
+				fn := l
+				if k := strings.LastIndex(fn, "("); k > 0 {
+					fn = fn[:k]
+				}
+				c.Frame[0] = "leader." + stripClosure(strings.TrimPrefix(fn, leaderPkg))
+				if j+1 < len(lines) {
+					if m := traceLocRe.FindStringSubmatch(lines[j+1]); m != nil {
+						c.Frame[1] = filepath.Base(m[1]) + ":" + m[2]
+					}
+				}
+				break
+			}
+		}
+		return c, true
+	}
+	return Crash{}, false
 }
 
 // Result is the content of RACE_OUT.
